@@ -16,6 +16,7 @@
 
 #include <assert.h>
 #include <inttypes.h>
+#include <limits.h>
 #include <string.h>
 #include <stdbool.h>
 
@@ -146,12 +147,24 @@ Base64encode(char *encoded, const char *string, int len)
 static char *
 ws_gen_accept_key(const char *ws_key, char out[32])
 {
-	char buf[1024];
+	char *buf;
 	char digest[20];
+	const size_t key_len = strlen(ws_key);
+	const size_t uuid_len = sizeof(WS_UUID) - 1;
 
-	snprintf(buf, sizeof(buf), "%s" WS_UUID, ws_key);
+	/* the key is as long as the client likes (up to the HTTP headers
+	 * size limit), and all of it goes into the hash */
+	if (key_len > INT_MAX - uuid_len)
+		return NULL;
+	if ((buf = mm_malloc(key_len + uuid_len)) == NULL) {
+		event_warn("%s: malloc failed", __func__);
+		return NULL;
+	}
+	memcpy(buf, ws_key, key_len);
+	memcpy(buf + key_len, WS_UUID, uuid_len);
 
-	builtin_SHA1(digest, buf, strlen(buf));
+	builtin_SHA1(digest, buf, (int)(key_len + uuid_len));
+	mm_free(buf);
 	Base64encode(out, digest, sizeof(digest));
 	return out;
 }
@@ -376,7 +389,7 @@ evws_new_session(
 {
 	struct evws_connection *evws = NULL;
 	struct evkeyvalq *in_hdrs;
-	const char *upgrade, *connection, *ws_key, *ws_protocol;
+	const char *upgrade, *connection, *ws_key, *ws_protocol, *ws_accept;
 	struct evkeyvalq *out_hdrs;
 	struct evhttp_connection *evcon;
 
@@ -393,12 +406,15 @@ evws_new_session(
 	if (ws_key == NULL)
 		goto error;
 
+	ws_accept = ws_gen_accept_key(ws_key, (char[32]){0});
+	if (ws_accept == NULL)
+		goto error;
+
 	out_hdrs = evhttp_request_get_output_headers(req);
 	evhttp_add_header(out_hdrs, "Upgrade", "websocket");
 	evhttp_add_header(out_hdrs, "Connection", "Upgrade");
 
-	evhttp_add_header(out_hdrs, "Sec-WebSocket-Accept",
-		ws_gen_accept_key(ws_key, (char[32]){0}));
+	evhttp_add_header(out_hdrs, "Sec-WebSocket-Accept", ws_accept);
 
 	ws_protocol = evhttp_find_header(in_hdrs, "Sec-WebSocket-Protocol");
 	if (ws_protocol != NULL)
